@@ -5,7 +5,7 @@ from .. import AnalysisError
 from ..report import Ob
 from ..cfg import calls_at, call_attr, is_self_attr
 from ..state import Analysis, State, TOP
-from ..norm import Normalizer, FrameEnv, single_defs
+from ..norm import Normalizer, FrameEnv, single_defs, subst
 from .. import inventory as inv
 from .. import devices as dv
 from .c05 import dirty_pairing, level_payload
@@ -43,11 +43,11 @@ def check(ctx):
     NR = Normalizer(P, RM)
 
     def rm_payload(cl, n):
-        if len(cl.args) < 3 or not isinstance(cl.args[2], ast.Tuple) or len(cl.args[2].elts) != 3:
+        d = dv.datapoint(cl, n.frame)
+        if d is None or d['elts'] is None or len(d['elts']) != 3:
             return False
-        env = FrameEnv(n.frame)
-        key = NR.norm(cl.args[1], env).key()
-        t, u, cap = [NR.norm(x, env) for x in cl.args[2].elts]
+        key = d['sub']
+        t, u, cap = [NR.norm(x, {}) for x in d['elts']]
         return t.is_({'NOW': 1}) and u.is_({f'self._resources[{key}][0]': 1}) and cap.is_({f'self._resources[{key}][1]': 1})
     ents = {e: k for e, k in dv.entry_points(P, RM).items() if e != 'initialize'}
     nw['resource_update'] = dirty_pairing(ctx, o, RM, '_resources', True, 'resource_update', payload_check=rm_payload, entries=ents, env_field='_env', opaque=())
@@ -57,10 +57,10 @@ def check(ctx):
         NS = Normalizer(P, c)
 
         def src_payload(cl, n):
-            if len(cl.args) < 3 or not isinstance(cl.args[2], ast.Tuple) or len(cl.args[2].elts) != 2 or ast.unparse(cl.args[1]) != 'self.name':
+            d = dv.datapoint(cl, n.frame)
+            if d is None or d['elts'] is None or len(d['elts']) != 2 or d['sub'] != 'self.name':
                 return False
-            env = FrameEnv(n.frame)
-            return NS.norm(cl.args[2].elts[0], env).is_({'NOW': 1}) and NS.norm(cl.args[2].elts[1], env).key() == 'self._output.id'
+            return NS.norm(d['elts'][0], {}).is_({'NOW': 1}) and NS.norm(d['elts'][1], {}).key() == 'self._output.id'
         ents = dv.entries_of(P, c)
         nw['supplied_new_part'] = dirty_pairing(ctx, o, c, '_produced_parts', False, 'supplied_new_part', payload_check=src_payload, entries=ents, opaque=())
     # scheduler state
@@ -69,10 +69,10 @@ def check(ctx):
         NA = Normalizer(P, c)
 
         def as_payload(cl, n):
-            if len(cl.args) < 3 or not isinstance(cl.args[2], ast.Tuple) or len(cl.args[2].elts) != 2 or ast.unparse(cl.args[1]) != 'self.name':
+            d = dv.datapoint(cl, n.frame)
+            if d is None or d['elts'] is None or len(d['elts']) != 2 or d['sub'] != 'self.name':
                 return False
-            env = FrameEnv(n.frame)
-            return NA.norm(cl.args[2].elts[0], env).is_({'NOW': 1}) and NA.norm(cl.args[2].elts[1], env).key() == 'self._state'
+            return NA.norm(d['elts'][0], {}).is_({'NOW': 1}) and NA.norm(d['elts'][1], {}).key() == 'self._state'
         nw['schedule_update'] = dirty_pairing(ctx, o, c, '_state', False, 'schedule_update', payload_check=as_payload, opaque=())
     # acceptance <-> received_part  (all slot devices)
     for c in dv.device_classes(P, dv.SLOT_DEVICES):
@@ -86,10 +86,11 @@ def check(ctx):
                 and not (isinstance(a.value, ast.Constant) and a.value.value is None) and n.frame.func.name != '__init__'
 
         def part_payload(cl, n, NH=NH):
-            if len(cl.args) < 3 or not isinstance(cl.args[2], ast.Tuple) or len(cl.args[2].elts) != 4 or ast.unparse(cl.args[1]) != 'self.name':
+            d = dv.datapoint(cl, n.frame)
+            if d is None or d['elts'] is None or len(d['elts']) != 4 or d['sub'] != 'self.name':
                 return False
-            els = cl.args[2].elts
-            return NH.norm(els[0], FrameEnv(n.frame)).is_({'NOW': 1}) and [ast.unparse(x) for x in els[1:]] == ['self._part.id', 'self._part.quality', 'self._part.value']
+            els = d['elts']
+            return NH.norm(els[0], {}).is_({'NOW': 1}) and [ast.unparse(x) for x in els[1:]] == ['self._part.id', 'self._part.quality', 'self._part.value']
         ents = dv.entries_of(P, c)
         k = dirty_pairing(ctx, o, c, None, False, 'received_part', payload_check=part_payload, entries=ents, is_write=acc_write,
                           what='the acceptance of a part', opaque=())
@@ -104,10 +105,11 @@ def check(ctx):
             return n.kind == 'stmt' and isinstance(a, ast.Assign) and any(is_self_attr(t, '_output') for t in a.targets) and is_self_attr(a.value, '_part')
 
         def out_payload(cl, n):
-            if len(cl.args) < 3 or not isinstance(cl.args[2], ast.Tuple) or len(cl.args[2].elts) != 4 or ast.unparse(cl.args[1]) != 'self.name':
+            d = dv.datapoint(cl, n.frame)
+            if d is None or d['elts'] is None or len(d['elts']) != 4 or d['sub'] != 'self.name':
                 return False
-            els = cl.args[2].elts
-            return NP.norm(els[0], FrameEnv(n.frame)).is_({'NOW': 1}) and [ast.unparse(x) for x in els[1:]] == ['self._output.id', 'self._output.quality', 'self._output.value']
+            els = d['elts']
+            return NP.norm(els[0], {}).is_({'NOW': 1}) and [ast.unparse(x) for x in els[1:]] == ['self._output.id', 'self._output.quality', 'self._output.value']
         nw['produced_part'] = dirty_pairing(ctx, o, c, None, False, 'produced_part', payload_check=out_payload, entries=dv.entries_of(P, c), is_write=fin_write,
                                             what='the end of a processing cycle', opaque=(), fixed_fields={})
     # sink counter <-> received_part
@@ -125,9 +127,9 @@ def check(ctx):
             def fhook(an, n, before, after, g=g):
                 st = after
                 for cl in calls_at(g, n):
-                    if call_attr(cl) == 'add_datapoint' and cl.args and isinstance(cl.args[0], ast.Constant) and cl.args[0].value == 'device_failure':
-                        okp = len(cl.args) == 3 and ast.unparse(cl.args[1]) == 'self.name' and isinstance(cl.args[2], ast.Tuple) and len(cl.args[2].elts) == 2 \
-                            and NF.norm(cl.args[2].elts[0], FrameEnv(n.frame)).is_({'NOW': 1})
+                    d_ = dv.datapoint(cl, n.frame) if call_attr(cl) == 'add_datapoint' else None
+                    if d_ is not None and d_['label'] == 'device_failure':
+                        okp = d_['sub'] == 'self.name' and d_['elts'] is not None and len(d_['elts']) == 2 and NF.norm(d_['elts'][0], {}).is_({'NOW': 1})
                         st = st.with_flag('failrec2' if 'failrec' in st.flags else 'failrec')
                         if not okp:
                             st = st.with_flag('failrec-bad')
@@ -173,26 +175,31 @@ def check(ctx):
         cl = s.node
         N = Normalizer(P, s.cls) if s.cls is not None else None
         bad = None
-        if len(cl.args) != 3:
+        names_ = ['list_label', 'sub_label', 'datapoint']
+        b_ = dict(zip(names_, cl.args))
+        b_.update({k.arg: k.value for k in cl.keywords if k.arg in names_})
+        defs_ = single_defs(s.func) if s.func is not None else {}
+        if len(b_) != 3:
             bad = 'add_datapoint must be given (label, sub-label, datapoint)'
         else:
-            lbl = cl.args[0].value if isinstance(cl.args[0], ast.Constant) else ast.unparse(cl.args[0])
+            a0, a1, a2 = (subst(b_[k], defs_) for k in names_)
+            lbl = a0.value if isinstance(a0, ast.Constant) else ast.unparse(a0)
             labels.setdefault(str(lbl), []).append(s.ctx)
-            sub = ast.unparse(cl.args[1])
+            sub = ast.unparse(a1)
             if s.cls is not None and Asset in s.cls.mro:
                 if sub != 'self.name':
                     bad = 'the sub-label of a device record must be the device name'
             elif s.cls is RM:
                 if sub not in [a.arg for a in s.func.args.args]:
                     bad = 'the sub-label of a resource record must be the resource name'
-            dp = cl.args[2]
-            if not bad and not (isinstance(dp, ast.Tuple) and dp.elts and N is not None and N.norm(dp.elts[0], single_defs(s.func)).is_({'NOW': 1})):
+            dp = a2
+            if not bad and not (isinstance(dp, ast.Tuple) and dp.elts and N is not None and N.norm(dp.elts[0], {}).is_({'NOW': 1})):
                 bad = 'the datapoint must be a tuple whose first element is the current simulation time'
         if bad:
             o.fail(P, s.ctx, cl, bad, file=s.mod.path, line=s.line)
         else:
             o.witness(f'{s.ctx}:{s.line}')
-            o.sample({'site': f'{P.rel(s.mod.path)}:{s.line}', 'in': s.ctx, 'label': ast.unparse(cl.args[0]), 'sub_label': ast.unparse(cl.args[1])})
+            o.sample({'site': f'{P.rel(s.mod.path)}:{s.line}', 'in': s.ctx, 'label': str(lbl), 'sub_label': sub})
     need = {'received_part': 1, 'level': 1, 'produced_part': 1, 'device_failure': 1, 'supplied_new_part': 1, 'schedule_update': 1, 'resource_update': 1}
     for lbl, cnt in sorted(need.items()):
         o.count()
@@ -234,7 +241,9 @@ def check(ctx):
         a = n.ast
         for cl in calls_at(an.g, n):
             if call_attr(cl) == 'append' and [ast.unparse(x) for x in cl.args] == [dpn]:
-                rv = ast.unparse(cl.func.value)
+                import re as _re
+                # `d.setdefault(k, [])` / `d.setdefault(k, {})` is the look-up-or-create form of `d[k]`
+                rv = _re.sub(r'\.setdefault\((\w+),(\[\]|\{\})\)', r'[\1]', dv.canon_text(cl.func.value, n.frame))
                 st = st.with_flag('stored2' if 'stored' in st.flags else 'stored')
                 st = st.with_flag('where:' + rv)
         if n.kind == 'stmt' and isinstance(a, ast.Assign) and isinstance(a.targets[0], ast.Subscript) and isinstance(a.value, ast.List) \
@@ -260,7 +269,7 @@ def check(ctx):
     o.count()
     want_t = f'self.simulation_data[{lp}]'
     wh_all = sorted({f[6:] for st in res.exits() for f in st.flags if f.startswith('where:')})
-    bases = {w.split('[')[0] for w in wh_all}
+    bases = {w[:-len(f'[{sp}]')] if w.endswith(f'[{sp}]') else w.split('[')[0] for w in wh_all}
     okb = bool(bases)
     for b_ in bases:
         if b_ == want_t:
@@ -388,8 +397,28 @@ def check(ctx):
     setf = [n for n in g.nodes.values() if n.kind == 'stmt' and isinstance(n.ast, ast.Assign) and any(is_self_attr(t, '_trace') for t in n.ast.targets) and ast.unparse(n.ast.value) == tp]
     steps = [n for n in g.nodes.values() if any(call_attr(c) == 'step' for c in calls_at(g, n))]
     exports = [n for n in g.nodes.values() if any(call_attr(c) == '_export_trace' for c in calls_at(g, n))]
-    tries = [t for t in ast.walk(fn) if isinstance(t, ast.Try) and t.finalbody and any(isinstance(x, ast.Call) and call_attr(x) == '_export_trace' for s_ in t.finalbody for x in ast.walk(s_))
-             and any(isinstance(x, ast.Call) and call_attr(x) == 'step' for s_ in t.body for x in ast.walk(s_))]
+    def reaches_call(stmts, name, seen=()):
+        """do these statements call self.<name>(), directly or through helpers of Environment called on self?"""
+        for s_ in stmts:
+            for x in ast.walk(s_):
+                if isinstance(x, ast.Call) and isinstance(x.func, ast.Attribute) and is_self_attr(x.func):
+                    if x.func.attr == name:
+                        return True
+                    hit = P.lookup(Env, x.func.attr)
+                    if hit and hit[1] == 'method' and x.func.attr not in seen and reaches_call(hit[2].body, name, seen + (x.func.attr,)):
+                        return True
+        return False
+    def reachable_funcs(f0, seen=None):
+        seen = seen if seen is not None else {}
+        seen[f0.name] = f0
+        for x in ast.walk(f0):
+            if isinstance(x, ast.Call) and isinstance(x.func, ast.Attribute) and is_self_attr(x.func) and x.func.attr not in seen and x.func.attr not in ('step', 'schedule_event'):
+                hit = P.lookup(Env, x.func.attr)
+                if hit and hit[1] == 'method':
+                    reachable_funcs(hit[2], seen)
+        return seen
+    tries = [t for f_ in reachable_funcs(fn).values() for t in ast.walk(f_)
+             if isinstance(t, ast.Try) and t.finalbody and reaches_call(t.finalbody, '_export_trace') and reaches_call(t.body, 'step')]
     okr = bool(setf) and bool(steps) and bool(exports) and len(tries) == 1 and all(g.dominated_by(s_.id, {setf[0].id}) for s_ in steps)
     if okr:
         an = Analysis(P, g, ['_trace', '_terminated'])
